@@ -86,3 +86,69 @@ Fixpoint accepted_count (n : Z) (rs : list preq) (os : list outcome) : nat :=
       ((if hit then 1%nat else 0%nat) + accepted_count n rs' os')%nat
   | _, _ => 0%nat
   end.
+
+(* ---------------------------------------------------------------------------------------------
+   Round 5: the rest of CanUnprotect.unprotect that touches the replay state.
+
+   (a) RequestIdentifiers.can_reuse_nonce (oscore.py:1300-1305): computed from the replay check made
+       BEFORE decryption and never revised (an Echo-recovered request keeps can_reuse_nonce = False).
+   (b) the response path (oscore.py:1278-1282, 1408-1422): responses are not replay-checked; an
+       authentic response that carries the peer's own Partial IV initialises an uninitialised
+       window (only when echo_recovery is set: try_initialize).                                   *)
+Definition can_reuse_nonce (c : ctx) (r : preq) : bool :=
+  match window c with
+  | None => false
+  | Some w => match is_valid w (seqno r) with Ok b => b | Raise _ => false end
+  end.
+
+Inductive pmsg :=
+| PReq (r : preq)
+| PResp (own_seq : option Z) (auth : bool).   (* own_seq = the response's own Partial IV, if it has one *)
+Inductive pout :=
+| OReq (o : outcome) (reuse : bool)   (* reuse = request_id.can_reuse_nonce handed on (Accept, RejectEcho) *)
+| OResp (ok : bool).
+
+Definition unprotect_response (c : ctx) (own_seq : option Z) (auth : bool) : ctx * bool :=
+  if negb auth then (c, false)
+  else match window c, echo_recovery c, own_seq with
+       | None, Some _, Some n =>
+           ({| size := size c; window := Some (initialize_from_freshlyseen (size c) n);
+               echo_recovery := echo_recovery c |}, true)
+       | _, _, _ => (c, true)
+       end.
+
+Definition hands_on_request_id (o : outcome) : bool :=
+  match o with Accept | RejectEcho => true | _ => false end.
+
+Definition pstep (c : ctx) (m : pmsg) : ctx * pout :=
+  match m with
+  | PReq r => let '(c', o) := unprotect_request c r in
+              (c', OReq o (hands_on_request_id o && can_reuse_nonce c r))
+  | PResp own auth => let '(c', ok) := unprotect_response c own auth in (c', OResp ok)
+  end.
+
+Fixpoint prun (c : ctx) (ms : list pmsg) : ctx * list pout :=
+  match ms with
+  | [] => (c, [])
+  | m :: rest => let '(c1, o) := pstep c m in let '(c2, os) := prun c1 rest in (c2, o :: os)
+  end.
+
+Definition pauth (m : pmsg) : bool := match m with PReq r => authentic r | PResp _ a => a end.
+Definition pwf (m : pmsg) : Prop :=
+  match m with PReq r => 0 <= seqno r | PResp (Some n) _ => 0 <= n | PResp None _ => True end.
+
+(* how often a request with sequence number [n] was accepted / was handed on with a reusable nonce *)
+Fixpoint paccepted_count (n : Z) (ms : list pmsg) (os : list pout) : nat :=
+  match ms, os with
+  | m :: ms', o :: os' =>
+      let hit := match m, o with PReq r, OReq Accept _ => seqno r =? n | _, _ => false end in
+      ((if hit then 1%nat else 0%nat) + paccepted_count n ms' os')%nat
+  | _, _ => 0%nat
+  end.
+Fixpoint preuse_count (n : Z) (ms : list pmsg) (os : list pout) : nat :=
+  match ms, os with
+  | m :: ms', o :: os' =>
+      let hit := match m, o with PReq r, OReq _ true => seqno r =? n | _, _ => false end in
+      ((if hit then 1%nat else 0%nat) + preuse_count n ms' os')%nat
+  | _, _ => 0%nat
+  end.
